@@ -32,7 +32,7 @@ theorem closure_eq_spec_partial (cfg : Cfg) (fuel : Nat) (p : Expr)
     (implEval cfg fuel p).result = specEval fuel p := by
   have hs := eval_sim cfg fuel p { item := some (.int 1), lex := [], litem := some (.int 1) } []
     { heap := [], slots := [] } h
-  simp only [eraseCtx, eraseHeap, List.map_nil] at hs
+  simp only [eraseCtx, eraseHeap, List.map_nil, eraseFocus, Option.isSome_some, if_true] at hs
   show Except.map (fun x => x.1.1)
     (eval cfg fuel p { item := some (.int 1), lex := [], litem := some (.int 1) } []
       { heap := [], slots := [] }).2 = _
@@ -170,6 +170,47 @@ example : specEval 30
           (.cat (.cat (.call (.var 5) [some (.lit 3)]) (.call (.var 4) [some (.lit 5), some (.lit 6)]))
             (.call (.call (.var 4) [none, some (.lit 9)]) [some (.lit 8)]))))) =
     .ok [.int 1, .int 2, .int 3, .int 5, .int 2, .int 6, .int 8, .int 2, .int 9] := by decide
+
+/-! ## named function references capture the focus -/
+
+/-- `funcref_captures_focus`: (1) evaluating `f#n` allocates a **new** function object that holds the
+focus (context item, position, size) of the place of evaluation, and changes nothing else;
+(2) calling a reference to a focus-dependent function (`position#0`, `last#0`, `data#0`) returns
+what the function computes from the focus stored in the object — from any calling context `c'`,
+any variables, any state holding the object: the focus of the caller, and whatever other
+references the same expression produced before or after, play no part.  (With
+`heap_append_only`: no later evaluation can re-target an existing reference.) -/
+theorem funcref_captures_focus (cfg : Cfg) (ev : Expr → ICtx → Env → IM (Seq × Env)) :
+    (∀ (b : Builtin) (c : ICtx) (D : Env) (st : St),
+      step cfg ev (.named b) c D st =
+        (Flags.none, .ok (([.fn st.heap.length], D),
+          { st with heap := st.heap ++ [{ tok := none, code := .builtin b, env := none, lex := [], fixed := none,
+                                          fitem := c.item, flitem := c.litem, fpos := c.pos, fsize := c.size }] }))) ∧
+    (∀ (b : Builtin) (a : Nat) (o : FObj) (c' : ICtx) (D' : Env) (st : St),
+      st.heap[a]? = some o → o.code = .builtin b → o.fixed = none → b.arity = 0 →
+      callFn cfg ev c' D' a [] st =
+        ({ focus := b.focusDep && decide (o.fitem ≠ o.flitem) },
+         (b.apF (o.fitem, o.fpos, o.fsize) []).map fun r => ((r, D'), st))) := by
+  refine ⟨fun b c D st => rfl, fun b a o c' D' st ho hc hf hb => ?_⟩
+  obtain ⟨tok, code, env, lex, fixed, fi, fli, fp, fs⟩ := o
+  simp only at hc hf
+  subst hc hf
+  unfold callFn
+  simp only [IM.bind_def, IM.getObj, ho, FObj.nargsOk, FObj.arity, hb, List.length_nil, BEq.rfl,
+    if_true, Option.isSome_none, Bool.false_and, Bool.false_eq_true, if_false, IM.flag, Flags.none_or]
+  have hb' : (b.arity == 0) = true := by simp [hb]
+  cases Builtin.apF b (fi, fp, fs) [] <;>
+    simp [hb', IM.lift, IM.throw, IM.pure_def, IM.bind_def, IM.flag, Functor.map, Except.map, Flags.or, Flags.none]
+
+/-- test on literals (the seeded change that stored the reference on the `#` token):
+`((5,6,7) ! position#0) ! .()` = `(1,2,3)`, and called in reverse order `reverse((5,6,7) ! data#0) ! .()`
+= `(7,6,5)` — in the model (reference tree, no flag) and in the specification -/
+example :
+    implEval Cfg.fixed 20 (.smap (.par (.smap (.par (.cat (.cat (.lit 5) (.lit 6)) (.lit 7))) (.named .position0)))
+      (.call .dot [])) = { result := .ok [.int 1, .int 2, .int 3], flags := Flags.none } ∧
+    specEval 20 (.smap (.call (.named .reverse)
+        [some (.smap (.par (.cat (.cat (.lit 5) (.lit 6)) (.lit 7))) (.named .data0))])
+      (.call .dot [])) = .ok [.int 7, .int 6, .int 5] := by decide
 
 /-! ## higher-order functions -/
 
